@@ -24,7 +24,8 @@ def evaluate(name, jobs):
     sh(["rsync", "-a", "--exclude", "kani/target", "--exclude", "replay/target", "--exclude", ".gen", "--exclude", ".git",
         "--exclude", "seeded", "--exclude", "findings", "--exclude", "evidence", "--exclude", "replays", VERIF + "/", d + "/verif/"])
     p = os.path.join(d, "verif", "kani/Cargo.toml")
-    open(p, "w").write(open(p).read().replace('path = "/repo"', f'path = "{d}/repo"'))
+    txt = open(p).read().replace('path = "/repo"', f'path = "{d}/repo"')
+    open(p, "w").write(txt)
     env = dict(os.environ, VERIF_REPO=d + "/repo", CARGO_NET_OFFLINE="true")
     res = {}
     sel = json.load(open(os.path.join(VERIF, "benign", "props.json"))).get(name) if not ALL else None
@@ -33,7 +34,8 @@ def evaluate(name, jobs):
         r = sh(["./check", pr, "--tier", "quick", "--jobs", str(jobs)], cwd=d + "/verif", env=env)
         res[pr] = dict(rc=r.returncode, wall_s=round(time.time() - t0, 1),
                        violations=[l.replace(d + "/verif", "/verif") for l in r.stdout.splitlines() if l.startswith("VIOLATION")],
-                       undecided=[l[:200] for l in (r.stderr + r.stdout).splitlines() if l.startswith("UNDECIDED")][:3])
+                       undecided=[l[:200] for l in (r.stderr + r.stdout).splitlines() if l.startswith("UNDECIDED")][:3],
+                       tail=(r.stdout + r.stderr)[-1500:] if r.returncode == 2 else "")
     sh(["git", "-C", "/repo", "worktree", "remove", "--force", d + "/repo"])
     shutil.rmtree(d, ignore_errors=True)
     return name, res
